@@ -25,6 +25,7 @@ type Case struct {
 	Render  ttml.Render `json:"render"`
 	WIndent int         `json:"windent"` // write direction: 0 no option (library default), 1 "", 2 "\t", 3 two spaces
 	Dir     string      `json:"dir"`
+	Key     string      `json:"key,omitempty"` // the classification this case was recorded under (replay looks for it)
 
 	renderDev int // number of non-default READ rendering choices (the write check runs only when 0)
 }
@@ -1033,6 +1034,7 @@ func run(c *core.Ctx) {
 					return map[string]interface{}{"choices": x.Trace, "bytes": string(cs.Doc.Bytes(cs.Render))}
 				})
 				for _, f := range fs {
+					cs.Key = f.Key
 					c.Violate("read", f.Key, f.Msg, cs, size)
 				}
 			}
@@ -1042,6 +1044,7 @@ func run(c *core.Ctx) {
 				cs.Dir = "write"
 				c.Record(sub+".write", out, core.Hash64("w", string(b), windents[cs.WIndent]), nil)
 				for _, f := range fs {
+					cs.Key = f.Key
 					c.Violate("write", f.Key, f.Msg, cs, size)
 				}
 			}
@@ -1080,6 +1083,7 @@ func run(c *core.Ctx) {
 				fs, out := CheckMissing(m)
 				c.Record("missing", out, core.Hash64("m", fmt.Sprint(ncues, which, k)), nil)
 				for _, f := range fs {
+					m.Key = f.Key
 					c.Violate("missing", f.Key, f.Msg, m, len(m.Doc.Bytes(m.Render)))
 				}
 			}
@@ -1103,12 +1107,19 @@ func replay(sub string, raw json.RawMessage) (string, bool) {
 	default:
 		fs, _ = CheckRead(cs)
 	}
-	if len(fs) == 0 {
-		return "no difference", false
-	}
-	var s []string
+	var s, other []string
 	for _, f := range fs {
-		s = append(s, "["+f.Key+"] "+f.Msg)
+		if cs.Key == "" || f.Key == cs.Key {
+			s = append(s, "["+f.Key+"] "+f.Msg)
+		} else {
+			other = append(other, f.Key)
+		}
+	}
+	if len(s) == 0 {
+		if len(other) > 0 {
+			return "no " + cs.Key + " any more (the case still shows " + strings.Join(other, ", ") + ")", false
+		}
+		return "no difference", false
 	}
 	return strings.Join(s, "\n"), true
 }
@@ -1122,7 +1133,7 @@ func init() {
 			core.Thorough: "time sweep over [0,20 s) + larger cores (4 indents, 3 br forms, 4 write indents) + deviation ball B=3 (<=3 cues)",
 		},
 		Assumptions: []string{"Go toolchain and standard library (encoding/xml is used generically by the independent decoder)", "independent reference codec engine/ref/ttml",
-			"outside the denotation (the format or the property sentence does not carry them): nested spans, raw newlines in character data, white-space-only character data between spans, leading white space of bare text at the start of a paragraph or on an indented line, dur=, fractions of more than 3 digits, f/t metrics without a frame/tick rate, xml:lang values outside the five mapped languages (not compared), Metadata.Framerate, sub-millisecond instants and line terminators inside a run in the write direction"},
+			"outside the denotation (the format or the property sentence does not carry them): nested spans, raw newlines in character data, white-space-only character data between spans, leading XML white space (space, tab, CR, LF) of bare text at the start of a paragraph or on an indented line, dur=, fractions of more than 3 digits, f/t metrics without a frame/tick rate, xml:lang values outside the five mapped languages (not compared), Metadata.Framerate, sub-millisecond instants and line terminators inside a run in the write direction"},
 		Plain: run, Replay: replay,
 	})
 }
